@@ -230,4 +230,34 @@ CHECKS = {
              "checks; distinct = distinct (config, op list).",
         assumptions=COMMON_ASSUME,
     ),
+    "C19": dict(
+        pkg="c19", race=False, shards=(6, 16), timeout_s=(600, 3000),
+        technique="holder-bracket monitor + every-caller-granted-within-timeout monitor on a synctest virtual clock; real-time stress with stuck-state classification",
+        level_text="FixedPool and Pool x {random, FIFO, LIFO}, limit 1-4, callers = limit+1..limit+backlog with PRNG arrival instants (also all "
+                   "simultaneous) and hold times (also zero), time-out above the longest possible wait: a harness bracket counter (a lower bound of the true "
+                   "holders) must never exceed the limit, every caller must be granted and within the time-out of its arrival in exact virtual time. "
+                   "A real-time stress tier (zero hold, 300 iterations per caller, time-out 1h) must finish without refusals; a run that stops progressing "
+                   "with capacity free is classified as stuck (violation), anything else as inconclusive. Exploration.",
+        require=["virtual_scenarios", "virtual_callers_that_had_to_wait", "virtual_scenarios_reaching_the_limit", "stress_runs", "stress_grants"],
+        rule="virtual scenario = (pool kind, ordering, limit, backlog, callers, per-caller arrival/hold/outcome); stress = (same config, real time); "
+             "non-trivial = at least one caller had to wait; distinct = distinct (config, first caller).",
+        assumptions=COMMON_ASSUME + ["the bracket counter is incremented after Acquire returned and decremented before completion, so it never over-counts holders"],
+    ),
+    "C02": dict(
+        pkg="c02", race=False, shards=(8, 16), timeout_s=(600, 3600),
+        technique="conservation monitor: per-layer counts vs harness token ledger after every step / at every quiescent point (synctest), exactly-once accounting of delegate tokens, re-admission of the full limit",
+        level_text="(A) DefaultLimiter over Simple/Precise/Lookup/Predicate, sequential random acquire/complete with all outcomes: strategy busy, bin "
+                   "busy and the limiter's in-flight gauge equal the harness's outstanding tokens after every step. (B) blocking / deadline / queue stacks in a "
+                   "synctest bubble with arrivals, bursts, releases, cancellations, time advances across time-outs and releases placed at the very "
+                   "instant of a bound, optional yields in the push/hand-off windows: at every quiescent point busy = gauge = outstanding delegate tokens = "
+                   "granted - completed, listener!=nil iff ok, no delegate token completed twice; after teardown all zero, backlog empty, exactly the limit "
+                   "re-admitted. (C) real-time stress (8-16 goroutines, random cancels, 1-3 ms time-outs) with the same end-state checks. (D) pools "
+                   "behaviourally. Exploration.",
+        require=["sequential_layer_checks", "completions/success", "completions/ignore", "completions/dropped", "bubble_scenarios/blocking",
+                 "bubble_scenarios/deadline", "bubble_scenarios/queue", "quiescent_checks", "give_up_events_injected",
+                 "releases_at_the_instant_of_a_bound", "stress_grants", "stress_refusals", "pool_cases"],
+        rule="cases: sequential stack (40-120 ops), bubble scenario (8-32 ops on a PRNG limiter kind/capacity/time-out), pool churn, stress run; non-trivial = "
+             "more than 5 quiescent checks (bubble) / grants and refusals both occurred (stress) / always (sequential, pool); distinct = distinct (config, op list).",
+        assumptions=COMMON_ASSUME,
+    ),
 }
